@@ -504,6 +504,9 @@ inductive LkXStep : (P2P × TLState) → (P2P × TLState) → Prop
       (∀ g, g ∈ ep.handles → g < s.sync.queues.length → (rget s.localConnectStatus g).disconnected = false →
         (rget s.localConnectStatus g).lastFrame = L) →
       s.handleEventCore now .disconnected hs addr = .ok s' → LkXStep (s, t) (s', t)
+  /-- the user submits a local player's input for the coming call (`add_local_input`) -/
+  | localInput (s : P2P) (t : TLState) (handle : Nat) (input : Input) :
+      LkXStep (s, t) ((s.addLocalInput handle input).1, t)
 
 inductive LkXStar : (P2P × TLState) → (P2P × TLState) → Prop
   | refl (x : P2P × TLState) : LkXStar x x
@@ -518,6 +521,11 @@ theorem LkInvD_step (x y : P2P × TLState) (h : ∃ gh, LkInvD x.1 gh x.2) (hs :
   | tick s s' t now reqs' hadv =>
     obtain ⟨gh', h', _⟩ := lockstepTick_specD s s' gh t now reqs' h hadv
     exact ⟨gh', h'⟩
+  | localInput s t handle input =>
+    obtain ⟨l, hl⟩ := P2P.addLocalInput_pending s handle input
+    show ∃ gh, LkInvD (s.addLocalInput handle input).1 gh t
+    rw [hl]
+    exact ⟨gh, SessInvD_pending s gh t [] _ l h.sess, h.idle, h.df, h.full, h.rows⟩
   | dropApi s s' t now handle addr ep hpt hep hin hrem hlt hl0 hsame hcall =>
     unfold P2P.disconnectPlayer at hcall
     rw [hpt] at hcall
